@@ -288,7 +288,7 @@ class C12(Check):
     level = "exploration"
     engine = "flosim"
     design_ref = "§6 C12"
-    rule = ("three plan families (the third, 4% of the plans: nested clones told apart only by the inodes of the main framer and its frames, inode-relative data at distinct inode paths and behaviour as one clone alone). (1) build-time clones: the main framer's frames clone one or two moot originals several times as insular "
+    rule = ("four plan families (the fourth, 4% of the plans: two houses in one skedder each rearing and razing clones of its own moot in a cycle, each house compared with itself alone; the third, 4%: nested clones told apart only by the inodes of the main framer and its frames, inode-relative data at distinct inode paths and behaviour as one clone alone). (1) build-time clones: the main framer's frames clone one or two moot originals several times as insular "
             "('as mine') and named clones, the second original itself cloning the first (clones inside clones), originals using "
             "framer-relative data ('counter of framer') to drive their transitions, entry needs ('let me if counter of framer ...') and "
             "'done'. (2) run-time clones (40%): cloner frames 'rear' 1-3 originals into a host frame that may also hold build-time "
@@ -307,7 +307,7 @@ class C12(Check):
                    "whether a razed clone that is 'done' but still entered gets its exit actions is outside this statement (probe razed-while-entered only)",
                    "program B (textual copies as ordinary auxiliaries) is the statement's 'what its original would produce alone'"]
     required_probes = ["insular", "named", "nested", "two-clones-of-one-original", "relative-entry-need", "reared", "razed-all", "razed-first", "razed-last",
-                       "raze-left-others", "raze-spared-non-razeable", "freed-name-taken-again", "dirty-plan", "razed-while-entered", "two-nested-clones-in-one-frame", "nested-named", "clock-driven-original", "raze-inside-original", "clones-under-two-framers", "marker-condition-in-original", "under-override-in-original", "nested-clones-under-frame-inodes", "distinct-inode-paths"]
+                       "raze-left-others", "raze-spared-non-razeable", "freed-name-taken-again", "dirty-plan", "razed-while-entered", "two-nested-clones-in-one-frame", "nested-named", "clock-driven-original", "raze-inside-original", "clones-under-two-framers", "marker-condition-in-original", "under-override-in-original", "nested-clones-under-frame-inodes", "distinct-inode-paths", "two-houses-rearing", "name-taken-again-in-a-second-house", "name-taken-again-in-the-first-house"]
     quick_runs = 3000
     thorough_runs = 150000
     shrink_fields = []
@@ -321,9 +321,75 @@ class C12(Check):
             names = g.sample(["left", "right", "north", "east", "wing", "bay"], 3)
             return {"mode": "via", "P": g.choice(["0.125", "0.25"]), "goal": g.randint(2, 5), "base": g.choice(["base", "plant", None]),
                     "holders": names[:g.randint(2, 3)], "vias": [True, True, True], "inner": g.choice(["mine", "named"])}
+        if index % 25 == 18:
+            # family 4: two houses in one skedder, each rearing and razing clones of its own moot in a cycle; each house must
+            # behave as it does alone (a razed clone's name is free again in its own house)
+            g = _side(S.gen)
+            return {"mode": "houses", "P": g.choice(["0.125", "0.25"]), "same_names": g.random() < 0.5, "hold": [g.randint(1, 4), g.randint(1, 4)],
+                    "rest": [g.randint(1, 3), g.randint(1, 3)], "work": [g.randint(1, 3), g.randint(1, 3)], "ticks": g.randint(12, 30),
+                    "nrear": [g.randint(1, 2), g.randint(1, 2)]}
         if S.gen.random() < 0.4:
             return gen_rear_plan(S.gen)
         return gen_plan(S.gen)
+
+    def _houses(self, plan, out, tr):
+        """Family 4 (see generate)."""
+        P = Fraction(plan["P"])
+
+        def house(k):
+            sfx = "" if plan["same_names"] else "ew"[k]
+            hn = ("east", "west")[k]
+            L = ["house %s" % hn, "", "  framer fm%s be active first c0" % sfx, "    frame c0", "      enter"]
+            for _ in range(plan["nrear"][k]):
+                L.append("        rear orig%s as mine be aux in frame h0" % sfx)
+            L += ["      go h0", "    frame h0", "      enter", "        do verif rec with tag \"h0.enter\"", "      recur", "        do verif rec with tag \"h0.recur\"",
+                  "      go u0 if elapsed >= %s" % float(plan["hold"][k] * P), "    frame u0", "      enter", "        raze all in frame h0",
+                  "      go c0 if elapsed >= %s" % float(plan["rest"][k] * P), "",
+                  "  framer orig%s be moot first p0" % sfx, "    frame p0", "      enter", "        do verif rec with tag \"p0.enter\"",
+                  "      recur", "        do verif rec with tag \"p0.recur\"", "      exit", "        do verif rec with tag \"p0.exit\"",
+                  "      go next if elapsed >= %s" % float(plan["work"][k] * P), "    frame p1", "      enter", "        do verif rec with tag \"p1.enter\"", "      done me", "",
+                  "  framer zclk be active first z0", "    frame z0", "      go z1 if elapsed >= %s" % float(plan["ticks"] * P), "    frame z1", "      enter", "        bid stop all", ""]
+            return "\n".join(L) + "\n"
+
+        def run(text):
+            return run_script(text, period=float(P), cap=float((plan["ticks"] + 10) * P))
+
+        def recs(r, k, both):
+            # the recorder events of house k: in the two-house run the houses are told apart by the harness label of the running tasker
+            o, cur = [], None
+            for e in r.trace:
+                if e[2] == "send" and cur is None:
+                    cur = e[3]
+                elif e[2] == "sent" and e[3] == cur:
+                    cur = None
+                elif e[2] == "rec":
+                    mine = (cur is not None and cur.startswith("west.")) == (k == 1) if both else True
+                    if mine:
+                        o.append((round(e[1] / float(P)),) + tuple(e[3:]))
+            return o
+
+        both = house(0) + house(1)
+        rb = run(both)
+        alone = [run(house(0)), run(house(1))]
+        for k, r in enumerate(alone):
+            if not r.built or r.exc is not None:
+                raise RuntimeError("harness: house %d alone does not build / run: %r %r\n%s" % (k, r.exc, getattr(r, "build_errors", None), house(k)))
+        out.probe("two-houses-rearing")
+        if not rb.built or rb.exc is not None:
+            out.violate("houses-raised", "two houses rearing and razing clones: the run raised %s" % (type(rb.exc[1]).__name__ if rb.exc else "build error"),
+                        "exc=%r errors=%r\n%s" % (rb.exc, getattr(rb, "build_errors", None), both))
+            return
+        for k in (0, 1):
+            a, b = recs(alone[k], k, False), recs(rb, k, True)
+            tr.add("house", k, len(b))
+            if a != b:
+                d = next((i for i, (x, y) in enumerate(zip(a, b)) if x != y), min(len(a), len(b)))
+                out.violate("houses-differ", "a house rearing and razing clones behaves differently next to another house",
+                            "house %d: first difference at event %d: alone %r, with the other house %r\n%s" % (k, d, a[d:d + 2], b[d:d + 2], both))
+                return
+            if sum(1 for e in b if e[1] == "p0.enter") >= 2 * plan["nrear"][k]:
+                out.probe("name-taken-again-in-a-second-house" if k == 1 else "name-taken-again-in-the-first-house")
+        out.nontrivial = True
 
     def _via(self, plan, out, tr):
         """Family 3 (see generate): nested frames, each holding an insular clone of 'cell', which holds a clone of 'unit'."""
@@ -402,8 +468,8 @@ class C12(Check):
     def execute(self, plan):
         out = Outcome()
         tr = Trace(keep=False)
-        if plan.get("mode") == "via":
-            self._via(plan, out, tr)
+        if plan.get("mode") in ("via", "houses"):
+            (self._via if plan["mode"] == "via" else self._houses)(plan, out, tr)
             out.digest = tr.digest()
             out.state_digest = hashlib.sha256(repr(sorted(plan.items(), key=repr)).encode()).hexdigest()[:16]
             return out
